@@ -454,6 +454,7 @@ class Interp:
                 self.call_funcinfo(init, args, kwargs, o, node)
             return o
         if isinstance(f, ExtRef):
+            self.emit('extcall', name=f.dotted, args=list(args), kwargs=dict(kwargs), node=node)
             r = self.dom.call_ext(f.dotted, args, kwargs, node)
             if r is not None:
                 return r
